@@ -12,6 +12,7 @@
 #include <string.h>
 
 #include "vx_explore.h"
+#include "cimba.h"
 #include "vx_sched.h"
 
 #include "cmb_logger.h"
@@ -173,6 +174,13 @@ static void run_probe(struct probe *p, bool small)
         PUT(dbits(cmb_random_PERT(0.0, 1.0, 3.0)));
         PUT(dbits(cmb_random_F_dist(3.0, 5.0)));
         PUT((uint64_t)cmb_random_negative_binomial(2, 0.5));
+        /* valid parameters whose variates (or intermediates) are subnormal: bit-identical on every thread
+         * only if every thread computes with the same floating-point environment */
+        PUT(dbits(cmb_random_exponential(3e-308)));
+        PUT(dbits(cmb_random_exponential(3e-308)));
+        PUT(dbits(cmb_random_gamma(0.001, 1.0)));
+        PUT(dbits(cmb_random_weibull(0.001, 1.0)));
+        PUT(dbits(cmb_random_uniform(0.0, 1e-310)));
         for (int k = 0; k < 5; k++) {
             PUT((uint64_t)cmb_random_flip());
         }
@@ -431,8 +439,54 @@ static void run_free(void)
     vx_outcome(7);
 }
 
+/* ------------------------------------------------------------------ the experiment executive's worker threads */
+#define NTRIAL 8
+struct xtrial { uint64_t seed; struct probe out; };
+static struct xtrial xtr[NTRIAL];
+
+static void xtrial_func(void *vp)
+{
+    struct xtrial *t = vp;
+    cmb_random_initialize(t->seed);
+    run_probe(&t->out, false);
+    cmb_random_terminate();
+}
+
+static void *xhelper(void *arg)
+{
+    (void)arg;
+    /* on a helper thread: cimba_run_experiment changes the caller's floating-point exception mask */
+    cimba_run_experiment(xtr, NTRIAL, sizeof xtr[0], xtrial_func);
+    return NULL;
+}
+
+static void run_experiment_mode(void)
+{
+    const int rot = vx_choose_free(3, "seed-rotation");
+    for (int i = 0; i < NTRIAL; i++) {
+        xtr[i].seed = SEEDS[(i + rot) % 3];
+        memset(&xtr[i].out, 0, sizeof xtr[i].out);
+    }
+    pthread_t th;
+    pthread_create(&th, NULL, xhelper, NULL);
+    pthread_join(th, NULL);
+    vx_transitions(NTRIAL);
+    uint64_t h = 0;
+    for (int i = 0; i < NTRIAL; i++) {
+        h = vx_mix(h, vx_hash_bytes(1, xtr[i].out.v, sizeof(uint64_t) * (size_t)xtr[i].out.n));
+        char what[60];
+        snprintf(what, sizeof what, "experiment:trial%d-on-a-worker-thread", i);
+        if (!compare_probe(&xtr[i].out, &ref_full[(i + rot) % 3], what, "same-seed-as-plain-thread")) {
+            break;
+        }
+    }
+    vx_state(vx_mix(h, (uint64_t)rot));
+    vx_outcome(h);
+}
+
 static void run_one(void)
 {
+    if (!strcmp(mode, "experiment")) { run_experiment_mode(); return; }
     if (!strcmp(mode, "identity")) run_identity();
     else if (!strcmp(mode, "history")) run_history();
     else if (!strcmp(mode, "threads")) run_threads();
